@@ -98,7 +98,7 @@ def judge(events, outs):
                     H.append({"seq": ev["seq"], "error": "deep copy of a freshly fitted model is not faithful",
                               "detail": out.get("twin_error")})
                 if out.get("doc_mode") != "json":
-                    V.append(_v("C01", f"C01/{fl}/store/{out.get('doc_mode', '').replace('pickle:', 'raises:')}", ev))
+                    V.append(_v("C01", f"C01/{fl}/store/{out.get('doc_mode', '')}", ev))
                 # the model's gate state: inherited disqualifications plus poor fit, nothing else
                 if fam != "caltrack" and out.get("poor_fit") is not None:
                     want = sorted([w.get("qualified_name") for w in out["data_dq_before"]]
@@ -177,17 +177,20 @@ def judge(events, outs):
         elif kind == "PREDICT_PAIR":
             if cls != "done" or not out.get("covers"):
                 continue
-            fl = flabel(out["fam"], out["profile"])
+            fl = out["fam"]
             ca, cb = out["classes"]
             alt = out["alter"]
+            how = ("data-" + "+".join(out["via_data"])) if out.get("via_data") else "model"
+            if out.get("reads") == "offset":
+                how += "@offset-reads"
             if ca != cb:
                 V.append(_v("C05", f"C05/{fl}/pair/{alt}/outcome-differs:{ca}|{cb}", ev, out.get("history")))
             elif ca == "returned":
                 if out.get("n_differ"):
-                    V.append(_v("C05", f"C05/{fl}/pair/{alt}/predicted-differs", ev,
+                    V.append(_v("C05", f"C05/{fl}/pair/{alt}/predicted-differs:{how}", ev,
                                 {"n": out["n_differ"], "max_abs_diff": out["max_abs_diff"], **out.get("history", {})}))
                 elif out.get("other_cols_differ"):
-                    V.append(_v("C05", f"C05/{fl}/pair/{alt}/columns-differ:{'+'.join(out['other_cols_differ'])}", ev))
+                    V.append(_v("C05", f"C05/{fl}/pair/{alt}/columns-differ:{'+'.join(out['other_cols_differ'])}:{how}", ev))
 
         elif kind == "SCRIBBLE_DATA":
             if out.get("changed"):
@@ -207,7 +210,7 @@ def judge(events, outs):
             fl = flabel(out["fam"], out["profile"])
             who = "restored/" if out.get("gen", 0) > 0 else ""
             if cls != "returned":
-                V.append(_v("C01", f"C01/{fl}/{who}store/{cls}", ev, {"error": out.get("error")}))
+                V.append(_v("C01", f"C01/{fl}/{who}store/{cls.replace('raised:', 'raises:')}", ev, {"error": out.get("error")}))
                 continue
             if out.get("restore_same") is False:
                 V.append(_v("C02", f"C02/{fl}/store/alters-model", ev))
@@ -217,7 +220,7 @@ def judge(events, outs):
         elif kind == "LOAD":
             fl = flabel(out["fam"], out["profile"])
             if cls != "returned":
-                V.append(_v("C01", f"C01/{fl}/load/{cls}", ev, {"error": out.get("error"), "form": out.get("form")}))
+                V.append(_v("C01", f"C01/{fl}/load/{cls.replace('raised:', 'raises:')}", ev, {"error": out.get("error"), "form": out.get("form")}))
                 continue
             if out.get("document_changed"):
                 V.append(_v("C01", f"C01/{fl}/load/alters-document:{'+'.join(out.get('document_changed_paths', []))}", ev))
@@ -230,7 +233,7 @@ def judge(events, outs):
                 V.append(_v("C04", f"C04/{fl}/load/dq-changed", ev))
             mode = out.get("restore_mode", "json")
             if mode != "json":
-                V.append(_v("C01", f"C01/{fl}/restored/store/{mode.replace('pickle:', 'raises:').replace('none:', 'raises:')}", ev))
+                V.append(_v("C01", f"C01/{fl}/restored/store/{mode}", ev))
             elif out.get("redoc_same") is False:
                 V.append(_v("C01", f"C01/{fl}/restored/store/doc-differs:{'+'.join(out.get('redoc_diff_paths', []))}", ev))
 
